@@ -7,7 +7,7 @@ identical ping ticks and report tick.
 (periodicity, no report for a responsive peer, report within 2·timeout of the first unanswered ping).
 
 Enumerated: (interval, timeout) on {-1, 0, 1..6, 1.5} s x {None, -1, 0, 1..5, 0.5} s for the validation;
-accepted pairs on {1..6} x {1..5} s with pong latencies per ping in {1 tick, to-1, to, to+1, never} (all
+TLS-style transport with the pong coalesced behind a data frame in one record; accepted pairs on {1..6} x {1..5} s with pong latencies per ping in {1 tick, to-1, to, to+1, never} (all
 patterns over the first 2 pings, thorough 3), data frames at ticks around the ping / timeout instants,
 both orders at every simultaneous wake; late unsolicited pongs; connections that end (pings stop) and
 reconnect (pings restart).
@@ -22,7 +22,8 @@ from appsim import TPS
 INF = None
 
 
-def ka_scenario(iv, to, lats, data=(), extra_pongs=(), sched="", tail_responsive=True, npings=None, payload="ka"):
+def ka_scenario(iv, to, lats, data=(), extra_pongs=(), sched="", tail_responsive=True, npings=None, payload="ka",
+                ssl=False, coalesce=False):
     """one connection that stays up.  lats[j] = latency of the pong answering the j-th ping (ping at (j+2)*iv)."""
     n = len(lats)
     total = (npings if npings is not None else n + 2)
@@ -31,6 +32,8 @@ def ka_scenario(iv, to, lats, data=(), extra_pongs=(), sched="", tail_responsive
         T = (j + 2) * iv
         lat = lats[j] if j < n else (1 if tail_responsive and (n == 0 or lats[-1] is not INF) else INF)
         if lat is not INF:
+            if coalesce:
+                arr.append((T + lat, -1, "t"))      # a data frame; the pong follows it in the SAME (TLS) segment
             arr.append((T + lat, 0, "q"))
     for t in extra_pongs:
         arr.append((t, 1, "q"))
@@ -43,11 +46,14 @@ def ka_scenario(iv, to, lats, data=(), extra_pongs=(), sched="", tail_responsive
     for t, _, k in arr:
         if t > horizon:
             continue
-        evs.append([t - prev, 0, k, "6b" if k == "t" else ""])
+        evs.append([t - prev, 1 if (coalesce and k == "q" and _ == 0 and evs and t == prev) else 0, k, "6b" if k == "t" else ""])
         prev = t
     sc = {"cbs": appsim.ALL, "iv": iv, "to": to, "payload": payload, "runs": [[["E", evs]]], "horizon": horizon,
           "sched": sched, "kind": "ka", "tag": f"iv={iv}:to={to}:lats={['inf' if l is INF else l for l in lats]}",
           "fuel": 6000}
+    if ssl:
+        sc["ssl"] = True
+        sc["tag"] += ":tls" + (":coalesced" if coalesce else "")
     return sc
 
 
@@ -219,6 +225,14 @@ def scenarios(ctx):
         for lats in ([INF], [1, INF], [INF, INF, INF]):
             for data in ((), (to - 200,), (2 * iv - 200,), (iv + 1, 2 * iv + 1)):
                 scs.append(ka_scenario(iv, to, lats, data=[d for d in data if d > 0], tail_responsive=False))
+    # TLS-style transport: the pong shares a record with a data frame that precedes it (it is left in the SSL
+    # object's buffer after the data frame was read), then silence until the next ping
+    for iv, to in ((2 * TPS, TPS), (3 * TPS, 2 * TPS), (5 * TPS, 2 * TPS), (6 * TPS, TPS)):
+        for lats in ([1, 1, 1], [to - 1, to - 1, to - 1], [1, to - 1, 1], [to // 2, INF]):
+            for co in (False, True):
+                for sched in ("", "1", "01"):
+                    scs.append(ka_scenario(iv, to, lats, sched=sched, ssl=True, coalesce=co,
+                                           tail_responsive=lats[-1] is not INF))
     # fractional settings, random mixtures
     n = 400 if ctx.thorough() else 100
     for _ in range(n):
@@ -246,16 +260,35 @@ def lifecycle(ctx):
                             "horizon": 20 * TPS, "kind": "lifecycle", "tag": f"reconnect:end={end}:iv={iv}"})
 
     def extra(ctx, sc, r):
-        # per ping thread: pings at start + k*iv (k >= 2), none after its stop
-        start, alive = None, False
+        # per ping thread: pings at start + k*iv (k >= 2), none after its stop, none missing while it lives
+        start, alive, up = None, False, False
+        seen = set()
+
+        def missing(upto):
+            if start is None:
+                return
+            k = 2
+            while start + k * sc["iv"] < upto:
+                if start + k * sc["iv"] not in seen:
+                    ctx.violate("periodic", "ping-missing", sc, "a ping every interval for as long as the connection is up",
+                                f"no ping at {start + k * sc['iv']} (thread started {start}, connection up until {upto})",
+                                size=appcheck.size_of(sc))
+                    return
+                k += 1
         for it in r["trace"].split(";"):
             t, _, rest = it.partition(":")
             t = int(t)
             if rest == "pingStart":
-                start, alive = t, True
+                start, alive, up = t, True, True
+                seen = set()
             elif rest == "pingStop":
                 alive = False
+            elif rest.startswith(("sockClosed:", "sockDropped:", "ret:", "cb:on_error", "cb:on_close", "raised:")) and up:
+                missing(t)          # the CONNECTION ends here: every ping due before must have been sent
+                up = False
             elif rest.startswith("wrote:9:"):
+                if alive:
+                    seen.add(t)
                 ok = alive and start is not None and (t - start) % sc["iv"] == 0 and (t - start) // sc["iv"] >= 2
                 if not ok:
                     ctx.violate("periodic", "ping-off-grid-or-after-stop", sc, "pings at start + k*iv (k>=2) while the thread lives",
